@@ -8,6 +8,18 @@ props = [json.loads(l) for l in open(os.path.join(V, 'properties.jsonl'))]
 
 # property -> (technique, level text, level note, design ref) ; absent => not yet claimed
 CLAIMS = {
+    'C04': ('Lean 4 theorems (both branches of the periodic control matrix equal the finite geometric series for every G>=1, every frequency, every tolerance; equality with the repetition sum) over the executable model + source pin of calculate_control_matrix_periodic + correspondence',
+            'Machine-checked proof that the solve branch (under the contract of linalg.solve and det != 0) and the explicit-sum fallback of calculate_control_matrix_periodic both equal sum_{g<G} T^g, and that B times that sum is the repetition sum formed by concatenating G copies; the model is tied to numeric.py by a translator pin of the function body, the regenerated contraction of calculate_control_matrix_from_atomic and a correspondence run at singular and near-singular frequencies; failing-input search compares concatenate_periodic with G-fold concatenation and with the tiled pulse from scratch.',
+            'linalg.solve/det are oracles with stated contracts; floating-point conditioning near singular frequencies is measured (1e-6), not proved; equality of the repetition sum with the from-scratch control matrix of the tiled pulse rests on C03/C15 (liouville_transfer, liou_mul).',
+            'DESIGN.md §5 C04'),
+    'C15': ('Lean 4 theorems from the completeness (swap) identity: Liouville entries, realness, L(1)=1, multiplicativity, orthogonality, transfer lemma, Choi matrix of a unitary is rank-one PSD, transposition is not CP, verdict soundness; model = regenerated contractions + expand; correspondence',
+            'Machine-checked proof, for every dimension, every complete orthonormal Hermitian basis and every (stack element) unitary, that the modelled liouville_representation has entries tr(C_i U C_j U^dagger), is real, maps 1 to 1, is multiplicative and orthogonal, that the .real cast loses nothing, that liouville_to_choi of a unitary channel is v v^dagger (PSD) and that of transposition has a negative direction; tie: regenerated einsum definitions, pinned wiring/bodies of the four functions, correspondence at doubles; search covers the d>12 closed-form path, stacks, pulses and CP/cCP verdicts on Kraus/Lindblad data.',
+            'eigh of the Choi matrix is an oracle; the closed-form GGM expansion for d>12 and the Lindblad cCP direction are validated by search only.',
+            'DESIGN.md §5 C15'),
+    'C19': ('Lean 4 theorems: the shipped closed forms FID, SE, PDD (both parities), CPMG (both parities), UDD and CDD (induction on the level) equal |y|^2/2 of the sign-flip sequence for every order and every z away from removable singularities; model executed for correspondence with analytic.py',
+            'Machine-checked proof over the reals that each function of analytic.py (modelled operation by operation and run against the Python on the same inputs) equals the dephasing filter function times omega^2 of the ideal sign-flip sequence with the family\'s flip times, for all n (g); the search compares the numerical engine on exact sign-flip pulses and on finite-width pi pulses with the shipped expressions.',
+            'The identification of the package filter function for B=sigma_z/2, H_c=0 with |y|^2/(2 omega^2) is validated numerically; Float sin/cos/tan vs real functions is not proved.',
+            'DESIGN.md §5 C19'),
     'C07': ('Lean 4 invariant proof over all finite histories of public calls on a pulse and its copies (cache state machine with cleanup sets regenerated from source) + model-vs-implementation correspondence on seeded histories',
             'Machine-checked proof (Lean 4 kernel, core only) that every public operation preserves cache coherence, that in every reachable state a request for grid g returns a value computed for exactly g from ingredients of g and never an error, and that the answer equals the one of a fresh pulse; the state machine is tied to pulse_sequence.py by the regenerated cleanup/alias/intermediates sets and by running the model and the real objects on the same histories, comparing the 19 cache fields after every call; every returned array is compared with a freshly constructed pulse.',
             'Cached arrays are abstracted to the grid they were computed for; Python aliasing of arrays between copies and the numerical kernels themselves are covered by measurement (comparison with fresh pulses), not by the theorem.',
